@@ -28,10 +28,11 @@ type rfModel struct {
 
 func buildRfModel(c *Ctx) *rfModel {
 	outer := c.fn("pkg/rf", "handleSUR")
-	if len(outer.AnonFuncs) != 1 {
-		broken("anchor: handleSUR is expected to return one function literal")
+	hs := returnedFuncs(outer)
+	if len(hs) != 1 {
+		broken("anchor: handleSUR is expected to return one handler function, found %d", len(hs))
 	}
-	f := outer.AnonFuncs[0]
+	f := hs[0]
 	m := &rfModel{c: c, f: f, fe: newFormEval(f)}
 	build := c.fn("pkg/rf", "buildTaffif")
 	eachInstr(f, func(_ *ssa.BasicBlock, _ int, ins ssa.Instruction) {
